@@ -304,7 +304,14 @@ impl<'a> Run<'a> {
                 "new" => {
                     let cfg = cfg_of(op);
                     let i = op["i"].as_i64().unwrap();
-                    let r = catch_unwind(AssertUnwindSafe(|| Ind::new(&cfg.kind, &cfg.per, cfg.m)));
+                    let dflt = op["dflt"].as_bool().unwrap_or(false);
+                    let r = catch_unwind(AssertUnwindSafe(|| {
+                        if dflt {
+                            Ind::default_of(&cfg.kind).ok_or("no Default".to_string())
+                        } else {
+                            Ind::new(&cfg.kind, &cfg.per, cfg.m)
+                        }
+                    }));
                     match r {
                         Ok(Ok(ind)) => {
                             let l = Live { ind, t: 0, mag: 0.0, strict: 0, eff: 0, cmax: 1.0, tainted: false, dead: false, len0: None, last: vec![], last_in: 0.0, shadow: None, inputs: vec![], mem: cfg.mem,
